@@ -69,6 +69,19 @@ func genGeneric(prop string, tweak func(g *genCtx), mix Mix) func(seed, run int6
 		if tweak != nil {
 			tweak(g)
 		}
+		mix := mix
+		if g.ft.Huge {
+			// a long, registration-heavy history: dependency graphs with well
+			// over 64 nodes per scope
+			g.ft.MaxOps = g.r.Range(150, 260)
+			mix = Mix{Scope: 1, Provide: 14, Decorate: mix.Decorate, Invoke: 3, VisStr: mix.VisStr}
+			g.ft.NT = 8
+			if len(g.ft.Names) == 0 {
+				g.ft.Names = []string{"n1", "n2"}
+			}
+			g.ft.Objects = true
+			g.ft.PDup = 0.02
+		}
 		if g.ft.Catalog {
 			g.h.Cfg.ValMask, g.h.Cfg.AltMask = 0, 0 // declared functions have fixed Go types
 		}
